@@ -285,6 +285,15 @@ func (fr *frame) execInstr(st *state, in ssa.Instruction) {
 		if fc.e.mapInvKeys[mv] && fr.sweepOn() {
 			fr.oblige(st, "mapinv", fr.anchorText(v.Pos(), "stmt"), v.Pos(), nonNilTerm(fr.val(v.Value), u.sortOf(v.Value.Type())), "values of this map must never be nil")
 		}
+		if only, ok := fc.e.mapFrameKeys[mv]; ok && !only[fc.e.keyOf(fr.fn)] {
+			entry := fr
+			for entry.parent != nil {
+				entry = entry.parent
+			}
+			if entry.old != nil {
+				fr.oblige(st, "mapframe", fr.anchorText(v.Pos(), "stmt"), v.Pos(), fmt.Sprintf("(>= %s %s)", m, entry.old.alloc), "a map of this type is written outside its owning functions, and it was not allocated by this function")
+			}
+		}
 		if fr.sweepOn() {
 			fr.oblige(st, "mapnil", fr.anchorText(v.Pos(), "stmt"), v.Pos(), fmt.Sprintf("(not (= %s 0))", m), "assignment to entry in nil map")
 		}
